@@ -96,7 +96,12 @@ def _i(v):
 
 def mk_enum(w, v):
     from spacepackets.ecss.fields import PacketFieldEnum
-    return PacketFieldEnum(w * 8, _i(v))
+    val = _i(v)
+    if w in (1, 2, 4) and (val + w) % 2:
+        # the width-specific convenience classes (PacketFieldU8 / U16 / U32) are the same kind of field
+        from spacepackets.ecss.fields import PacketFieldU8, PacketFieldU16, PacketFieldU32
+        return {1: PacketFieldU8, 2: PacketFieldU16, 4: PacketFieldU32}[w](val)
+    return PacketFieldEnum(w * 8, val)
 
 
 def proj_enum(e, key="v"):
@@ -167,12 +172,17 @@ def op_srv1_rt(a):
         raw = owned(o.pack)
         p = a["p"]
         sw, ew = _widths(p)
-        up = unpack_params(len(p["stamp"]), sw, ew)
+        private = len(raw) % 2 == 1
+        up = S.UnpackParams(len(p["stamp"]), sw, ew) if private else unpack_params(len(p["stamp"]), sw, ew)
         buf = rxbuf(raw, a["sfx"])
         if a.get("via") == "from_tm":
             d = fresh(lambda: S.Service1Tm.from_tm(PusTm.unpack(buf, len(p["stamp"])), up))
         else:
             d = fresh(lambda: S.Service1Tm.unpack(buf, up))
+        if private:
+            # the caller re-uses ITS parameter record for the next stream with other widths: what was decoded stays decoded
+            up.bytes_step_id, up.bytes_err_code = (8 if sw != 8 else 1), (8 if ew != 8 else 2)
+            up.timestamp_len = (up.timestamp_len + 3) % 17
         decode_other("srv1", lambda b: S.Service1Tm.unpack(b, unpack_params(7, 1, 1)))
         ec = d.error_code
         if p["fail"] and (ec is None or proj_enum(ec, "code")["code"] != proj_fail(d.failure_notice)["code"]):
